@@ -256,7 +256,6 @@ fn is_err(v: &str) -> bool { v.starts_with("err") }
 fn arr_units(n: &Node) -> usize { match n { Node::Header(..) | Node::Rgb(..) => 2, _ => 1 } }
 
 fn value_of_fields(enc: Enc, ty: &Ty, fs: &[Field]) -> Option<String> {
-    if fs.iter().any(|f| f.ghosts > 0 || f.implicit_eq) { return None; }
     match ty {
         Ty::Struct(decl) => {
             let mut slots: Vec<Option<String>> = vec![None; decl.len()];
@@ -314,7 +313,7 @@ fn value_of_node(enc: Enc, ty: &Ty, n: &Node, op: Option<Op>) -> Option<String> 
         Node::Leaf(l) => value_of_leaf(enc, ty, l),
         // a typed scalar requested for a container: both paths refuse with the same class (`Fits.leafOnObj` / `leafOnArr`)
         Node::Obj(_) | Node::Arr(_) if typed_leaf => ty_err,
-        Node::Obj(fs) if !fs.is_empty() => value_of_fields(enc, ty, fs),
+        Node::Obj(fs) if !fs.is_empty() => if nested_first_implicit(fs) { None } else { value_of_fields(enc, ty, fs) },
         Node::Obj(_) => value_of_node(enc, ty, &Node::Arr(vec![]), op),
         Node::Arr(vs) => match ty {
             Ty::Seq(t) => {
@@ -327,6 +326,21 @@ fn value_of_node(enc: Enc, ty: &Ty, n: &Node, op: Option<Op>) -> Option<String> 
                     items.push(x);
                 }
                 Some(format!("[{}]", items.join(",")))
+            }
+            // a fixed-length target on an array that is not longer (Lean `tupVals`, `Fits.tup`): a missing element is
+            // `invalid length`; a longer array has no shared value (the paths differ)
+            Ty::Tuple(ts) => {
+                if matches!(vs.first(), Some(Node::Arr(v)) if v.is_empty()) || matches!(vs.first(), Some(Node::Obj(v)) if v.is_empty()) { return None; }
+                let xs = expand_nodes(vs)?;
+                if xs.len() > ts.len() { return None; }
+                let mut items = vec![];
+                for (i, t) in ts.iter().enumerate() {
+                    let Some(v) = xs.get(i) else { return Some("err:other".into()) };
+                    let x = value_of_node(enc, t, v, None)?;
+                    if is_err(&x) { return Some(x); }
+                    items.push(x);
+                }
+                Some(format!("({})", items.join(",")))
             }
             // `any` on an array of scalars / arrays / header values, any depth (Lean `anyVal`, `Fits.anyArr`)
             Ty::Any => any_val(enc, n),
@@ -384,7 +398,7 @@ fn bad(enc: Enc, field_pos: bool, ty: &Ty, n: &Node) -> bool {
     match n {
         Node::Mixed(..) => return true,
         Node::Header(_, body) if !matches!(**body, Node::Obj(_) | Node::Arr(_)) => return true,
-        Node::Obj(fs) if fs.iter().any(|f| f.ghosts > 0 || f.implicit_eq || matches!(f.key, Leaf::Quo(_))) => return true,
+        Node::Obj(fs) if nested_first_implicit(fs) => return true,
         // the recorded finding `array-leading-empty` (a byte-level difference of the two parsers)
         Node::Arr(vs) if vs.len() > 1 && (matches!(vs.first(), Some(Node::Arr(v)) if v.is_empty()) || matches!(vs.first(), Some(Node::Obj(v)) if v.is_empty())) => return true,
         _ => {}
@@ -422,8 +436,13 @@ fn bad(enc: Enc, field_pos: bool, ty: &Ty, n: &Node) -> bool {
             }),
             _ => true,
         },
+        Ty::Tuple(ts) => match n {
+            Node::Arr(vs) => match expand_nodes(vs) { Some(xs) => xs.len() > ts.len() || ts.iter().zip(xs.iter()).any(|(t, x)| bad(enc, false, t, x)), None => true },
+            Node::Obj(_) if empty => false,
+            _ => true,
+        },
         // outside the Lean models' type grammar
-        Ty::Tuple(_) | Ty::Unit => true,
+        Ty::Unit => true,
     }
 }
 
@@ -440,7 +459,10 @@ fn bad_leading(vs: &[Node]) -> bool {
 
 /// the whole document against a root type: does `C02_error_agreement` claim agreement?
 fn agreement_claimed(enc: Enc, ty: &Ty, doc: &Doc) -> bool {
-    matches!(ty, Ty::Struct(_) | Ty::Map(_)) && !doc.fields.is_empty() && !bad(enc, false, ty, &Node::Obj(doc.fields.clone()))
+    // (at the root a first field without its `=` is an ordinary field)
+    let mut fields = doc.fields.clone();
+    if let Some(f) = fields.first_mut() { f.implicit_eq = false; }
+    matches!(ty, Ty::Struct(_) | Ty::Map(_)) && !doc.fields.is_empty() && !bad(enc, false, ty, &Node::Obj(fields))
 }
 
 fn has_any(t: &Ty) -> bool {
@@ -520,6 +542,15 @@ fn gen_node_ty(rng: &mut Rng, n: &Node, cfg: &TyCfg) -> Ty {
     match n {
         Node::Leaf(l) => gen_leaf_ty(rng, l),
         Node::Obj(fs) => gen_fields_ty(rng, fs, cfg),
+        // a fixed-length target: one type per element (fitting length), one too few (the tape path takes the prefix,
+        // the reader path refuses: finding `tuple-longer-than-target`) or one too many (both refuse)
+        Node::Arr(vs) if vs.len() <= 6 && !vs.iter().any(|v| matches!(v, Node::Mixed(..))) && rng.chance(1, 7) => {
+            let mut ts: Vec<Ty> = vs.iter().flat_map(|v| match v {
+                Node::Header(..) | Node::Rgb(..) => vec![if rng.chance(1, 2) { Ty::Str } else { Ty::Ign }, Ty::Seq(Box::new(Ty::Ign))],
+                other => vec![gen_node_ty(rng, other, cfg)] }).collect();
+            match rng.below(8) { 0 => { ts.pop(); } 1 => ts.push(Ty::Any), _ => {} }
+            Ty::Tuple(ts)
+        }
         Node::Arr(vs) => {
             if vs.iter().all(|v| matches!(v, Node::Leaf(_))) {
                 // element type fitting every element: from the first element when they are alike, else a string
@@ -698,11 +729,11 @@ fn gen_dup_doc(rng: &mut Rng) -> Vec<u8> {
 // ---------------------------------------------------------------------------------------
 
 /// abstract document in the syntax the Lean driver parses (`Spec/TextDoc.lean`): no header values,
-/// unquoted keys.  node := u<hex> | q<hex> | o[field;..] | a[node;..]   field := <keyhex>~<op>~node
+/// node := u<hex> | q<hex> | o[field;..] | a[node;..]   field := <keyhex>~<op>~node
 fn ser_node(n: &Node) -> Option<String> {
     match n {
         Node::Leaf(l) => Some(match l { Leaf::Quo(b) => format!("q{}", hex(b)), other => format!("u{}", hex(&leaf_text(other).0)) }),
-        Node::Obj(fs) if !fs.is_empty() => Some(format!("o[{}]", ser_fields(fs)?)),
+        Node::Obj(fs) if !fs.is_empty() && !nested_first_implicit(fs) => Some(format!("o[{}]", ser_fields(fs)?)),
         Node::Arr(vs) => Some(format!("a[{}]", vs.iter().map(ser_node).collect::<Option<Vec<_>>>()?.join(";"))),
         Node::Header(name, body) if matches!(**body, Node::Obj(_) | Node::Arr(_)) => Some(format!("h{}:{}", hex(name), ser_node(body)?)),
         Node::Rgb(r, g, b, a) => {
@@ -712,11 +743,20 @@ fn ser_node(n: &Node) -> Option<String> {
         _ => None,
     }
 }
+/// the implicit `=` takes effect (docgen `lex_field`)
+fn eff_implicit(f: &Field) -> bool { f.implicit_eq && f.op == Op::Eq && matches!(f.val, Node::Obj(_) | Node::Arr(_) | Node::Mixed(..)) }
+
+/// `{ b{ … } … }`: without its `=` the first field of a nested container makes the tape parser read an ARRAY that
+/// starts with `b` (the reader path still sees a field): outside the document model of both specs
+fn nested_first_implicit(fs: &[Field]) -> bool { fs.first().map_or(false, eff_implicit) }
+
+/// field := [+<ghosts>+][!][^]<keyhex>~<op>~node   (`!` quoted key, `^` the `=` is left out before `{`)
 fn ser_fields(fs: &[Field]) -> Option<String> {
     let mut out = vec![];
     for f in fs {
-        if f.ghosts > 0 || f.implicit_eq || matches!(f.key, Leaf::Quo(_)) { return None; }
-        out.push(format!("{}~{}~{}", hex(&leaf_text(&f.key).0), f.op.name(), ser_node(&f.val)?));
+        let (kb, quoted) = match &f.key { Leaf::Quo(b) => (b.clone(), true), other => (leaf_text(other).0, false) };
+        let ghosts = if f.ghosts > 0 { format!("+{}+", f.ghosts) } else { String::new() };
+        out.push(format!("{}{}{}{}~{}~{}", ghosts, if quoted { "!" } else { "" }, if eff_implicit(f) { "^" } else { "" }, hex(&kb), f.op.name(), ser_node(&f.val)?));
     }
     Some(out.join(";"))
 }
@@ -1405,6 +1445,17 @@ pub fn gen(g: &mut Gen) {
             }
         }
     }
+    // 0c. the byte-level witnesses of Lean `C02_mixed_container_paths_differ`, `C02_implicit_eq_first_field_paths_differ`,
+    //     `C02_parameter_block_paths_differ` on the real code (each real path against its model; the paths differ)
+    for (ty, text) in [("st(a:map(str))", "a={ b=1 c d }"), ("st(a:st(b:opt(map(str));d:opt(str)))", "a={ b{ c=1 } d=2 }"),
+                       ("st(a:str;b:opt(str);c:opt(str))", "a=1 [[x] b=2 ] c=3"),
+                       // Lean `C02_tuple_longer_paths_differ` (finding `tuple-longer-than-target`)
+                       ("st(id:u8;arr:tup(i32;i32))", "id=1 arr={ 1 2 3 }")] {
+        let ty = parse_ty(ty).unwrap();
+        for (cap, sch) in [(32768usize, "-"), (8, "R1"), (16, "3,1,R5")] {
+            emit_pair_with(g, Enc::U, &ty, text.as_bytes(), Some("%"), Some((cap, sch)));
+        }
+    }
     // 1. well-formed save-style documents x layouts x encodings x target types
     let n = g.budget(30_000, 300_000);
     let cfg = DocCfg::save_style();
@@ -1495,6 +1546,35 @@ pub fn gen(g: &mut Gen) {
         count_float_hits(g, &expect);
         g.count(if expect.is_some() { "ops:with-expectation" } else { "ops:no-expectation" });
         emit_pair(g, enc, &ty, &data, expect.as_deref());
+        emit_spec(g, enc, &ty, &doc, expect.as_deref());
+    }
+    // 2b. what the full text syntax adds and both deserializers accept: operators, quoted keys, variables as
+    //     scalars, the implicit `=` before `{`, ghost `{}` in key position (no mixed containers: see x-probe)
+    let n = g.budget(8_000, 80_000);
+    let cfg_full = DocCfg { mixed: false, ..DocCfg::text_full() };
+    for i in 0..n {
+        let mut doc = gen_doc(&mut g.rng, &cfg_full);
+        while doc.fields.is_empty() { doc = gen_doc(&mut g.rng, &cfg_full); }
+        let data = render_layout(&mut g.rng, &LayoutCfg::reader_safe(), &lexemes(&doc));
+        let mut ty = if g.rng.chance(1, 8) { doc_ty(&mut g.rng, &doc, true) } else { gen_fields_ty(&mut g.rng, &doc.fields, &TyCfg { prop: true }) };
+        if g.rng.chance(1, 12) { ty = misfit(&mut g.rng, &ty); }
+        count_ty(g, &ty);
+        let enc = if i % 2 == 0 { Enc::W } else { Enc::U };
+        let expect = value_of(enc, &ty, &doc);
+        count_float_hits(g, &expect);
+        fn deco(fs: &[Field], c: &mut [usize; 4]) {
+            for f in fs {
+                if f.ghosts > 0 { c[0] += 1; } if eff_implicit(f) { c[1] += 1; } if matches!(f.key, Leaf::Quo(_)) { c[2] += 1; } if f.op != Op::Eq { c[3] += 1; }
+                match &f.val { Node::Obj(x) => deco(x, c), Node::Arr(vs) => for v in vs { if let Node::Obj(x) = v { deco(x, c) } }, Node::Header(_, b) => if let Node::Obj(x) = &**b { deco(x, c) }, _ => {} }
+            }
+        }
+        let mut c = [0usize; 4]; deco(&doc.fields, &mut c);
+        if expect.is_some() { for (k, name) in ["ghost", "implicit-eq", "quoted-key", "operator"].iter().enumerate() { if c[k] > 0 { g.count(&format!("full:with-expectation:{}", name)); } } }
+        g.count(if expect.is_some() { "full:with-expectation" } else { "full:no-expectation" });
+        let claimed = expect.is_none() && agreement_claimed(enc, &ty, &doc);
+        if claimed { g.count("full:agreement-claimed-without-value"); }
+        let e = if claimed { Some("=".to_string()) } else { expect.clone() };
+        emit_pair(g, enc, &ty, &data, e.as_deref());
         emit_spec(g, enc, &ty, &doc, expect.as_deref());
     }
     // 3. malformed stream: mutations of rendered documents, random text; no expectation, correspondence only
